@@ -935,9 +935,14 @@ func (g *c17Rig) judge(q *c17Req) (c17Verdict, c17Resp) {
 			outcome = "forward"
 		}
 	}
+	annMissed := false
 	switch outcome {
 	case "blocked":
 		// clause: "... is refused and never reaches the upstream model"
+		if (got.UpDelta != 0 || got.Status < 400 || got.Status > 499) && want.Why == "semantic" && g.annMiss(q, "blocked") {
+			annMissed = true
+			break
+		}
 		if got.UpDelta != 0 {
 			g.failf("firewall: request that must be refused (%s) reached the upstream model (%d upstream request(s), status %d): %s", want.Why, got.UpDelta, got.Status, desc)
 		}
@@ -946,6 +951,10 @@ func (g *c17Rig) judge(q *c17Req) (c17Verdict, c17Resp) {
 		}
 	case "hit":
 		// clause: "... is answered with that stored response without contacting upstream"
+		if got.UpDelta != 0 && got.CacheHdr != "HIT" && g.annMiss(q, "hit") {
+			annMissed = true
+			break
+		}
 		if got.UpDelta != 0 {
 			g.cs.Attach("cache_index_at_miss", g.cacheDiag(q))
 			g.failf("cache: request within the cache distance of a previously answered one contacted the upstream (%d request(s), status %d, X-Kektor-Cache=%q): %s", got.UpDelta, got.Status, got.CacheHdr, desc)
@@ -1000,7 +1009,7 @@ func (g *c17Rig) judge(q *c17Req) (c17Verdict, c17Resp) {
 	}
 	// model update + wait for the asynchronous save
 	if g.o.CacheEnabled {
-		cacheable := outcome == "forward" && !q.Stream && !q.Marker && q.Text != ""
+		cacheable := (outcome == "forward" || annMissed && got.UpDelta >= 1 && got.Status == 200) && !q.Stream && !q.Marker && q.Text != ""
 		if cacheable {
 			g.settle(cntBefore + 1)
 		} else {
@@ -1059,7 +1068,74 @@ func (g *c17Rig) judge(q *c17Req) (c17Verdict, c17Resp) {
 			}
 		}
 	}
+	if annMissed {
+		want.Outcome, want.Why = "ann_miss", outcome
+	}
 	return want, got
+}
+
+// c17ExhaustiveBelow: up to 2*M = 32 vectors the engine's search is exhaustive (property C07); above that it is
+// an approximate (HNSW) search whose recall is C07's business, not the gateway's.
+const c17ExhaustiveBelow = 32
+
+// annMiss is consulted when the gateway did not refuse / did not serve a request that the brute-force reference
+// says it must, on an index too large for the engine's search to be exhaustive. It asks the engine the way the
+// gateway does (VSearchWithScores with the gateway's beam of 64) and reports true when the ENGINE's own answer
+// contains no stored vector within the threshold either (for the cache: no servable entry): the gateway was never
+// shown the neighbour, so its decision is not judged (counted as ann_miss; bounded by c17AnnFloor). When the
+// engine's answer does contain one and the gateway still decided wrongly, that is the gateway's violation.
+func (g *c17Rig) annMiss(q *c17Req, kind string) bool {
+	const beam = 64
+	if kind == "blocked" {
+		if len(g.liveForbidden()) <= c17ExhaustiveBelow {
+			return false
+		}
+		res, err := g.eng.VSearchWithScores(c17FwIndex, q.Vec, beam)
+		if err != nil {
+			return false
+		}
+		for _, r := range res {
+			for _, f := range g.forbidden {
+				if f.ID == r.ID && !f.Deleted && c17Class(g.o.FwMetric, c17Dist(g.o.FwMetric, q.Vec, f.Vec), g.o.Tf) == +1 {
+					return false
+				}
+			}
+		}
+		return true
+	}
+	live := 0
+	for _, en := range g.entries {
+		if !en.Removed {
+			live++
+		}
+	}
+	if live <= c17ExhaustiveBelow {
+		return false
+	}
+	res, err := g.eng.VSearchWithScores(c17CacheIndex, q.Vec, beam)
+	if err != nil {
+		return false
+	}
+	cm := g.cacheMetric()
+	now := time.Now()
+	for _, r := range res {
+		for _, en := range g.entries {
+			if en.ID == r.ID && !en.Removed && g.ageClass(en, now) == +1 && c17Class(cm, c17Dist(cm, q.Vec, en.Vec), g.o.Tc) == +1 {
+				return false
+			}
+		}
+	}
+	return true
+}
+
+// c17AnnFloor bounds the requests left unjudged as ann_miss in one group of one process, so that a regression of
+// the gateway's beam is still caught: more than max(2, 0.4 % of the decided near-requests) is a violation.
+// Calibrated: beam 64: 0 misses in ~3000 near-requests on 40..2000 vectors; beam 1 at n >= 1200: 0.6-2 %.
+func c17AnnFloor(ctx *vkit.Ctx, group string) {
+	miss, near := ctx.Counter(group+".ann_miss"), ctx.Counter(group+".near_decided")
+	if limit := max(2, near*4/1000); miss > limit {
+		ctx.Violation(group+":ann_floor", 0, fmt.Sprintf("group %s: %d requests that must be refused / served from the cache were not, and the engine's own beam-64 search did not return the neighbour either (ann_miss); more than the calibrated floor of %d for %d decided near-requests — the lookups' recall has regressed (beam narrower than 64?)", group, miss, limit, near), nil, nil)
+	}
 }
 
 // forwardedIntact compares what the upstream received with what the client sent ("is forwarded" / "reaches
